@@ -52,7 +52,7 @@ func (c ConcCase) Validate() error {
 		}
 	}
 	switch c.Kind {
-	case "mem":
+	case "mem", "file-mixed":
 	case "file-disjoint":
 		owner := map[uint64]int{}
 		for ci, ops := range c.Clients {
@@ -263,7 +263,9 @@ func ConcMain(batchFile string, stdout, stderr io.Writer) error {
 			recs := RunConc(c, d, false)
 			catch(func() { d.Close() })
 			for _, r := range recs {
-				if r.Torn {
+				// file-mixed: a read that overlaps a write of its block on the file-backed disk may
+				// legitimately see part of it (one pread against one pwrite; not claimed atomic)
+				if r.Torn && c.Kind != "file-mixed" {
 					fmt.Fprintf(stdout, "TORN %d client=%d op#%d %s(%d): word %d carries tag %#x, word 0 carries %#x\n", i, r.Client, r.Idx, r.Op, r.Addr, r.TornAt, r.TornTag, r.Tag)
 				}
 			}
